@@ -1,12 +1,15 @@
 import Proofs.SeriesP
 import Proofs.Series2
+import Proofs.ExpReal
+import Proofs.TrigReal
 
 /-! # C16 — series functions on blades with scalar square, scalars, and the scaling-and-squaring structure
 
 Any ℚ-algebra `A` (so: every dimension and signature). `expTrunc N X = Σ_{k<N} X^k/k!` is what the loop of
 `taylor_expansions.exp` accumulates (N = max_order = 15) on the scaled argument before the repeated squarings.
-The closeness of the N-term polynomials to cos/sin/cosh/sinh/exp on the stated ranges is analytic and is
-compared with libm by the correspondence check (relative 1e-6), not proved. -/
+The closeness of the N-term polynomials to the real functions is proved **on scalars** (`exp` with its scaling and squaring, `cos`, `sin`:
+Mathlib's remainder bounds for the complex exponential series); on blades it is the same scalar statement for the polynomials `C_N(s)`, `S_N(s)` of
+`exp_on_blade`; for general multivectors it is analytic and compared with the exact series / libm by the correspondence check (relative 1e-6), not proved. -/
 
 namespace C16
 open SeriesP Finset
@@ -53,5 +56,36 @@ theorem sin_sinh_on_blade (σ : ℚ) (B : A) (s : ℚ) (h : B * B = s • (1 : A
 
 /-- non-vacuity: in ℚ itself, `B = 2`, `s = 4` -/
 example : ((2 : ℚ) * 2 = (4 : ℚ) • (1 : ℚ)) := by norm_num
+
+/-! ### scalars: the coded functions against the real functions (analytic, Mathlib's series remainder bounds) -/
+
+/-- **`exp` on a scalar is the real exponential within the stated tolerance**: for a rational scalar `c` the scheme of `taylor_expansions.exp` —
+    scale by `2^j` so that `|c|/2^j ≤ 1`, the 15-term series (`exp_on_scalar`: the rational `Σ_{k<15} (c/2^j)^k/k!`), `j ≤ 18` squarings
+    (`squaring_undoes_scaling`; so `|c| ≤ 262144`) — gives a rational number within relative `10⁻⁶` of `Real.exp c`. (General form with explicit
+    remainder: `ExpReal.scaled_squared`. The early `break` of the loop drops terms below `eps = 10⁻¹²`, and binary64 rounding, are evaluated.) -/
+theorem exp_on_scalar_matches_real_exp (c : ℚ) (j : Nat) (hj : j ≤ 18) (hy : |c / 2 ^ j| ≤ 1) :
+    |(((∑ k ∈ range 15, (1 : ℚ) / (k.factorial : ℚ) * (c / 2 ^ j) ^ k) ^ (2 ^ j) : ℚ) : ℝ) - Real.exp (c : ℝ)|
+      ≤ (1 / 1000000) * Real.exp (c : ℝ) := by
+  have hy' : |(c : ℝ) / 2 ^ j| ≤ 1 := by
+    have := (Rat.cast_le (K := ℝ)).mpr hy
+    simpa using this
+  have h := ExpReal.exp_scalar_within_tolerance (c : ℝ) j hj hy'
+  have hs : (((∑ k ∈ range 15, (1 : ℚ) / (k.factorial : ℚ) * (c / 2 ^ j) ^ k) ^ (2 ^ j) : ℚ) : ℝ)
+      = ExpReal.series 15 ((c : ℝ) / 2 ^ j) ^ (2 ^ j) := by
+    unfold ExpReal.series
+    push_cast
+    congr 1
+    apply Finset.sum_congr rfl
+    intro k _
+    ring
+  rw [hs]
+  exact h
+
+/-- **`cos` and `sin` on a scalar**: the unscaled 30-term series of the code (`max_order = 30`: `Σ_{k<30} (−1)^k c^{2k}/(2k)!`,
+    `Σ_{k<30} (−1)^k c^{2k+1}/(2k+1)!`) are within `10⁻¹²` of `Real.cos c`, `Real.sin c` for every real `|c| ≤ 8` (general form with the remainder
+    `2|c|^{2N}/(2N)!` for `|c| ≤ N + 1/2`: `TrigReal.cos_sin_close`) -/
+theorem cos_sin_on_scalar_match_real (c : ℝ) (hc : |c| ≤ 8) :
+    |Real.cos c - TrigReal.cosTrunc 30 c| ≤ 1 / 1000000000000 ∧ |Real.sin c - TrigReal.sinTrunc 30 c| ≤ 1 / 1000000000000 :=
+  TrigReal.cos_sin_within_tolerance c hc
 
 end C16
